@@ -302,6 +302,7 @@ func runC09(c *Ctx, tier string) {
 		c.Undecided("C09-X1", "vector dispatch sites", "no dispatch site found in scope")
 	}
 	_ = token.NoPos
+	runDictNulls(c, "C09-N1")
 }
 
 func init() {
